@@ -321,12 +321,17 @@ func TestVerifLedgerReplay(t *testing.T) {
 		}
 		g := vgBuild(w, fmt.Sprintf("w%d", wi))
 		tr.Emit(vM{"ev": "Reset", "walk": wi, "fam": wk.Fam, "obs": g.observe()})
-		for si, st := range wk.Steps {
-			b := append([]string{}, st.B...)
+		// batches the REAL node validated and that were not applied yet: whatever the behaviour did with
+		// them, they are applied at the end (a certified batch this node signed must be applicable)
+		pending := [][]string{}
+		stopped := false
+		doStep := func(si int, op string, sb []string) {
+			b := append([]string{}, sb...)
 			sort.Slice(b, func(i, j int) bool { return vgOrd(b[i]) < vgOrd(b[j]) })
+			key := strings.Join(b, ",")
 			s := g.snapshotFor(b)
-			m := vM{"ev": st.Op, "b": b}
-			switch st.Op {
+			m := vM{"ev": op, "b": b}
+			switch op {
 			case "Validate":
 				res, detail := vCall(func() error {
 					_, missing, err := w.node.validateSnapshotTransaction(s, false)
@@ -342,7 +347,17 @@ func TestVerifLedgerReplay(t *testing.T) {
 				if res == "panic" {
 					m["detail"] = detail
 				}
+				if res == "ok" {
+					pending = append(pending, b)
+				}
 			case "Apply":
+				rest := pending[:0]
+				for _, pb := range pending {
+					if strings.Join(pb, ",") != key {
+						rest = append(rest, pb)
+					}
+				}
+				pending = rest
 				res, detail, _ := w.finalize(s)
 				applied := false
 				if res != "panic" {
@@ -363,8 +378,17 @@ func TestVerifLedgerReplay(t *testing.T) {
 			m["queries"] = g.queries(int(vSeed()) + wi + si)
 			tr.Emit(m)
 			if m["res"] == "panic" {
-				break // the process would have stopped here
+				stopped = true // the process would have stopped here
 			}
+		}
+		for si, st := range wk.Steps {
+			doStep(si, st.Op, st.B)
+			if stopped {
+				break
+			}
+		}
+		for k := 0; !stopped && len(pending) > 0 && k < 8; k++ {
+			doStep(len(wk.Steps)+k, "Apply", pending[0])
 		}
 		// C35: a different snapshot written at an already occupied topology position must be refused
 		// and must leave the stored order untouched (storage-level probe on a fabricated chain)
